@@ -257,6 +257,7 @@ pub fn run(ctx: &Ctx) -> i32 {
             }
         }
     });
+    executor_layer(ctx, &col);
     col.layer("iterator schedules", done, complete, json!({"contents": contents.len(), "max_chars": maxchars, "max_bytes": maxbytes, "cut_items": total, "capacities": CAPS}));
     finish(
         ctx,
@@ -271,7 +272,137 @@ pub fn run(ctx: &Ctx) -> i32 {
     )
 }
 
+// ---------------------------------------------------------------------------------------------
+// executor level (child processes): the real FollowFileExecutor, which prints to stdout; start-up position (--head vs tail)
+
+/// child: vcheck --child follow <head 0|1> <prefix hex> <chunk hex>,<chunk hex>,...
+pub fn child(args: &[String]) -> i32 {
+    use sqlgrep::execution::execution_engine::ExecutionEngine;
+    use sqlgrep::executor::{DisplayOptions, FollowFileExecutor, OutputFormat};
+    use std::sync::atomic::AtomicBool;
+    use std::sync::Arc;
+    let head = args[1] == "1";
+    let prefix = unhex(&args[2]);
+    let chunks: Vec<Vec<u8>> = args.get(3).map(|s| s.split(',').filter(|x| !x.is_empty() || true).map(unhex).collect()).unwrap_or_default();
+    let tmp = sut::TempFiles::new(&[prefix.as_slice()]);
+    let path = tmp.paths[0].clone();
+    let tables = sut::make_tables("CREATE TABLE t(line = '(?s)^(.*)$', line[1] => x TEXT);").unwrap();
+    let st = sut::parse("SELECT input FROM t").unwrap();
+    let mut appender = OpenOptions::new().append(true).open(&path).unwrap();
+    let mut next = 0usize;
+    verif_hooks::set(Box::new(move |p| {
+        if p != Point::FollowRetry {
+            return Action::Continue;
+        }
+        if next < chunks.len() {
+            appender.write_all(&chunks[next]).unwrap();
+            next += 1;
+            Action::Continue
+        } else {
+            Action::Stop
+        }
+    }));
+    let display = DisplayOptions { output_format: OutputFormat::Json, single_result: false, print_result: true };
+    let mut ex = match FollowFileExecutor::new(Arc::new(AtomicBool::new(true)), File::open(&path).unwrap(), head, display, ExecutionEngine::new(&tables, &st)) {
+        Ok(e) => e,
+        Err(e) => {
+            println!("FOLLOW-ERROR {}", e);
+            return 0;
+        }
+    };
+    let r = catch(|| ex.execute());
+    verif_hooks::clear();
+    match r {
+        Ok(Ok(())) => println!("FOLLOW-END ok"),
+        Ok(Err(e)) => println!("FOLLOW-END error {}", e),
+        Err(p) => println!("FOLLOW-END panic {}", p.msg),
+    }
+    0
+}
+
+fn executor_case(head: bool, prefix: &[u8], content: &[u8], chunk_lens: &[usize]) -> Vec<Failure> {
+    let mut chunks = Vec::new();
+    let mut pos = 0;
+    for l in chunk_lens {
+        chunks.push(hex(&content[pos..pos + l]));
+        pos += l;
+    }
+    let exe = std::env::current_exe().unwrap();
+    let out = std::process::Command::new(exe).args(["--child", "follow", if head { "1" } else { "0" }, &hex(prefix), &chunks.join(",")]).output().expect("spawn follow child");
+    let stdout = String::from_utf8_lossy(&out.stdout).to_string();
+    let mut delivered: Vec<Vec<u8>> = Vec::new();
+    let mut end = String::new();
+    for l in stdout.lines() {
+        if let Some(rest) = l.strip_prefix("FOLLOW-END ") {
+            end = rest.to_string();
+        } else if l.starts_with("FOLLOW-ERROR") {
+            end = l.to_string();
+        } else if let Ok(j) = serde_json::from_str::<J>(l) {
+            if let Some(s) = j["input"].as_str() {
+                delivered.push(s.as_bytes().to_vec());
+            }
+        }
+    }
+    // expected: with --head everything from the first byte of the file, otherwise only what is appended after start-up
+    let visible: Vec<u8> = if head { prefix.iter().chain(content.iter()).cloned().collect() } else { content.to_vec() };
+    let exp = expected_lines(&visible);
+    let same = delivered.len() == exp.len() && delivered.iter().zip(&exp).all(|(g, e)| line_eq(g, e));
+    if !same || end != "ok" || !out.status.success() {
+        let dev = if !out.status.success() { "child-died" } else if end != "ok" { "ended-with-error" } else if delivered.len() > exp.len() { "extra-delivery" } else if delivered.len() < exp.len() { "line-lost" } else { "line-content-differs" };
+        return vec![fail(
+            format!("follow-executor:{}:{}:{}", if head { "head" } else { "tail-start" }, dev, if prefix.is_empty() { "empty-file" } else if prefix.ends_with(b"\n") { "file-ends-with-newline" } else { "file-ends-mid-line" }),
+            format!("FollowFileExecutor (head={}) on a file holding {:?}, then appends {:?} cut {:?}: delivered {:?}, expected {:?}, end={}", head, String::from_utf8_lossy(prefix), String::from_utf8_lossy(content), chunk_lens, delivered.iter().map(|d| String::from_utf8_lossy(d).to_string()).collect::<Vec<_>>(), exp.iter().map(|d| String::from_utf8_lossy(d).to_string()).collect::<Vec<_>>(), end),
+            json!({"layer": "executor", "head": head, "prefix_hex": hex(prefix), "content_hex": hex(content), "chunks": chunk_lens}),
+            json!(exp.iter().map(|l| hex(l)).collect::<Vec<_>>()),
+            json!({"delivered": delivered.iter().map(|l| hex(l)).collect::<Vec<_>>(), "end": end}),
+            (prefix.len() + content.len()) as u64,
+        )];
+    }
+    vec![]
+}
+
+fn executor_layer(ctx: &Ctx, col: &Collector) {
+    let prefixes: [&[u8]; 5] = [b"", b"x\n", b"x", b"x\ny", "é\nz".as_bytes()];
+    let maxchars = ctx.tier.pick(2u32, 3u32);
+    let units = ["a", "\n", "é"];
+    let k = units.len() as u64;
+    let mut items: Vec<(bool, usize, Vec<u8>, Vec<usize>)> = Vec::new();
+    for idx in 0..seq_count(k, maxchars) {
+        let content: Vec<u8> = seq_decode(idx, k, maxchars).iter().map(|u| units[*u as usize]).collect::<String>().into_bytes();
+        let n = content.len();
+        let masks = if n == 0 { 1 } else { 1u64 << (n - 1) };
+        for m in 0..masks {
+            for (pi, _) in prefixes.iter().enumerate() {
+                for head in [false, true] {
+                    items.push((head, pi, content.clone(), cut_from_mask(n, m)));
+                }
+            }
+        }
+    }
+    let total = items.len() as u64;
+    let (done, complete) = par_for_budget(ctx, total, 4, |i| {
+        let (head, pi, content, cuts) = &items[i as usize];
+        let fs = executor_case(*head, prefixes[*pi], content, cuts);
+        col.eval(1);
+        col.traces_validated.fetch_add(1, std::sync::atomic::Ordering::Relaxed);
+        if !prefixes[*pi].is_empty() && content.contains(&b'\n') {
+            col.nontrivial(h64(&("exec", i)));
+        }
+        if i % 401 == 7 {
+            col.sample(json!({"layer": "executor", "head": head, "file_at_start": String::from_utf8_lossy(prefixes[*pi]), "appends": String::from_utf8_lossy(content), "cut": cuts}));
+        }
+        for f in fs {
+            col.fail(f);
+        }
+    });
+    col.layer("FollowFileExecutor start-up position (child processes)", done, complete, json!({"prefixes": prefixes.len(), "max_chars": maxchars, "cases": total}));
+}
+
 pub fn replay(case: &J) -> Vec<Failure> {
+    if case["layer"].as_str() == Some("executor") {
+        let chunks: Vec<usize> = case["chunks"].as_array().unwrap().iter().map(|x| x.as_u64().unwrap() as usize).collect();
+        return executor_case(case["head"].as_bool().unwrap(), &unhex(case["prefix_hex"].as_str().unwrap()), &unhex(case["content_hex"].as_str().unwrap()), &chunks);
+    }
     let content = unhex(case["content_hex"].as_str().unwrap());
     let chunks: Vec<usize> = case["chunks"].as_array().unwrap().iter().map(|x| x.as_u64().unwrap() as usize).collect();
     judge(&content, &chunks, case["capacity"].as_u64().unwrap() as usize, case["pre"].as_u64().unwrap_or(0) as usize, case["stutter_at"].as_u64().map(|x| x as usize)).0
